@@ -67,12 +67,12 @@ CHECKS["C15"] = dict(
     ref="5/C15")
 
 CHECKS["C16"] = dict(
-    text="spec/StackMachine.tla is an abstract machine for emitted code (sp, word slots, written set, register/flag tokens, ~35 event kinds); spec/AbiGen.tla (Level B) mirrors _allocate_patch_registers and the five _create_prologue_and_epilogue. TLC exhaustively enumerates ABI x clobber subset x clobbers_flags x align_stack x preserve_caller_saved x scratch count x reads x leaf x start alignment, executes the designed event sequence on the machine and checks every property clause in every state; every configuration is emitted as a case and replayed into the real generators, the prologue + body + epilogue are assembled by the real Assembler, decoded by capstone into events, replayed through the same machine and judged by TLC (spec/TraceStack.tla).",
+    text="spec/StackMachine.tla is an abstract machine for emitted code (sp, word slots, written set, register/flag tokens, ~35 event kinds); spec/AbiGen.tla (Level B) mirrors _allocate_patch_registers and the five _create_prologue_and_epilogue. TLC exhaustively enumerates ABI x clobber subset x clobbers_flags x align_stack x preserve_caller_saved x scratch count x reads x leaf x start alignment x the spelling of register names in the constraints (canonical / upper case / sub-register / mixed case), executes the designed event sequence on the machine and checks every property clause in every state; every configuration is emitted as a case and replayed into the real generators, the prologue + body + epilogue are assembled by the real Assembler, decoded by capstone into events, replayed through the same machine and judged by TLC (spec/TraceStack.tla).",
     note="Trusted: capstone as observer; the instruction semantics of StackMachine.tla; the patch body as havoc of the declared resources; psABI facts. Bounds: 4 (quick) / 6 (thorough) register universes per ABI, 3-5 reads choices, scratch in {0,1,3} / {0,1,2,3,7}. An instruction that touches sp/memory and is not in the table makes a case out of domain (never observed).",
     technique="TLA+ stack machine + Level-B generator model; TLC exhaustive MC with case emission; replay with bytes-to-events decoding; TLC trace validation",
     ref="5/C16")
 CHECKS["C17"] = dict(
-    text="Same construction with spec/CallGen.tla: TLC enumerates argument lists (0..16 arguments; small/negative/imm32 and imm64 boundaries/ARM 16-bit boundaries/symbol/callable), default and custom conventions, constraint overrides producing every prologue adjustment, and start alignments; at the call it checks argument registers, stack arguments, shadow space and alignment, at the end stack neutrality. Cases are replayed into the real CallPatch(...).get_asm with its real prologue/epilogue, assembled, decoded and judged by TLC.",
+    text="Same construction with spec/CallGen.tla: TLC enumerates argument lists (0..16 arguments; small/negative/imm32 and imm64 boundaries/ARM 16-bit boundaries/symbol/callable), default and custom conventions, constraint overrides producing every prologue adjustment, start alignments, and histories in which ONE CallPatch object is used at 2-3 insertion sites (direct get_asm calls and a real RewritingContext rewrite) with callables whose value depends on the insertion context; at the call it checks argument registers, stack arguments, shadow space and alignment, at the end stack neutrality. Cases are replayed into the real CallPatch(...).get_asm with its real prologue/epilogue, assembled, decoded and judged by TLC.",
     note="As C16; integers are byte-list tokens read back from the encoding; the expected conventions are the psABI defaults. KF-C17-2 (x86-64 stack-passed integers beyond imm32) and KF-C17-3 (x86 symbol arguments loaded instead of their address) are open and excused only under narrow signatures.",
     technique="TLA+ stack machine + Level-B call generator model; TLC exhaustive MC with case emission; replay + TLC trace validation",
     ref="5/C17")
